@@ -87,8 +87,19 @@ func interpretRef(s Store, name string, excludeTag bool) (ref string, sum []byte
 		}
 		return sl[i] < sl[j]
 	})
+	// a branch or tag named exactly NAME (or the full ref name) wins over a ref that
+	// merely ends in /NAME: with branches a/main and main, "main" is main
 	for _, ref := range sl {
-		if ref == name || strings.HasSuffix(ref, "/"+name) {
+		if ref == name || ref == "heads/"+name || ref == "tags/"+name {
+			sum, err := GetRef(s, ref)
+			if err != nil {
+				return name, nil, err
+			}
+			return ref, sum, nil
+		}
+	}
+	for _, ref := range sl {
+		if strings.HasSuffix(ref, "/"+name) {
 			sum, err := GetRef(s, ref)
 			if err != nil {
 				return name, nil, err
